@@ -63,7 +63,7 @@ TCase ==
   /\ l <= Len(Rec) /\ E.ev = "case"
   /\ cur' = CaseOf(E.c)
   /\ ms' = IF CheckM THEN Start(CaseOf(E.c)) ELSE ms
-  /\ fin' = [res |-> "", sound |-> FALSE]
+  /\ fin' = [res |-> "", sound |-> FALSE, want |-> NoProof]
   /\ exp' = [has |-> FALSE, p |-> NoProof]
   /\ stat' = Bump("cases")
   /\ l' = l + 1
@@ -80,19 +80,31 @@ ReplyClass(e) ==
   ELSE IF p.rs.sa # e.sender THEN "rsig-over-other-sender"
   ELSE "rsig-over-other-excess"
 
+\* input class of an ExportVerifies failure: was the payment finalized under its source account, and
+\* in which fields does the exported proof differ from the one the finalized reply determines
+FieldSeq == <<"amt", "exc", "ra", "rs", "sa", "ss">>
+RECURSIVE JoinFields(_, _)
+JoinFields(S, i) == IF i > Len(FieldSeq) THEN ""
+                    ELSE LET rest == JoinFields(S, i + 1) IN
+                         IF FieldSeq[i] \notin S THEN rest
+                         ELSE IF rest = "" THEN FieldSeq[i] ELSE FieldSeq[i] \o "+" \o rest
+DiffClass(p, q) == LET d == Changed(p, q) IN IF d = {} THEN "same" ELSE JoinFields(d, 1)
+AcctClass == IF SrcEff(cur) = cur.actF THEN "src=active" ELSE "src#active"
+
 PFinalize(e) ==
   IF FinalizeSound(e.res, e.req, e.amt, e.kern, e.sender, e.reply) THEN TRUE
   ELSE Viol(e, "FinalizeSound", ReplyClass(e), [reply |-> e.reply, req |-> e.req, amt |-> e.amt, kern |-> e.kern, sender |-> e.sender])
 
 PExport(e) ==
-  IF fin.sound /\ e.res # "ok" THEN Viol(e, "ExportVerifies", "export-" \o e.res, [detail |-> FieldOr(e, "detail", "")])
+  IF fin.sound /\ e.res # "ok" THEN Viol(e, "ExportVerifies", "export-" \o e.res \o "/" \o AcctClass, [detail |-> FieldOr(e, "detail", "")])
   ELSE TRUE
 
 ChangedField(p, q) == LET d == Changed(p, q) IN IF Cardinality(d) = 1 THEN CHOOSE f \in d : TRUE ELSE "multi"
 PVerify(e) ==
   LET honest == e.proof = exp.p IN
   /\ IF honest /\ fin.sound /\ ~ExportVerifies(e.res, e.onchain)
-     THEN Viol(e, "ExportVerifies", "verify-" \o e.res, [proof |-> e.proof, verifier |-> e.v]) ELSE TRUE
+     THEN Viol(e, "ExportVerifies", "verify-" \o e.res \o "/" \o AcctClass \o "/" \o DiffClass(fin.want, e.proof),
+               [proof |-> e.proof, expected |-> fin.want, verifier |-> e.v]) ELSE TRUE
   /\ IF ~MutantRefused(e.res, exp.p, e.proof)
      THEN Viol(e, "MutantRefused", ChangedField(exp.p, e.proof), [honest |-> exp.p, proof |-> e.proof]) ELSE TRUE
   /\ IF ~OffChainRefused(e.res, e.onchain)
@@ -133,7 +145,10 @@ TStep ==
         ELSE NonConf(e, "Step", [fields |-> Differing(m2.last, Seen(e)), exp |-> m2.last, obs |-> Seen(e)])
      /\ ms' = m2
      /\ fin' = IF e.ev = "finalize" /\ e.res # "skip"
-               THEN [res |-> e.res, sound |-> e.res = "ok" /\ ReplySound(e.req, e.amt, e.kern, e.sender, e.reply)]
+               THEN [res |-> e.res, sound |-> e.res = "ok" /\ ReplySound(e.req, e.amt, e.kern, e.sender, e.reply),
+                     \* the proof this payment determines: requested recipient and its signature, sender
+                     \* address of the sent slate and its signature, over the same message
+                     want |-> Proof(e.amt, e.kern, e.req, e.reply.rs, e.sender, PSig(e.sender, e.amt, e.kern, e.sender))]
                ELSE fin
      /\ exp' = IF e.ev = "export" /\ e.res = "ok" THEN [has |-> TRUE, p |-> e.proof] ELSE exp
      /\ stat' = CASE e.ev = "finalize" /\ e.res = "ok" -> Bump("finalize_ok")
@@ -162,7 +177,7 @@ TDone ==
 
 Stat0 == [cases |-> 0, finalize_ok |-> 0, forgery_refused |-> 0, export_ok |-> 0, verify_ok |-> 0, forged_accepted |-> 0,
           mutant_refused |-> 0, offchain_refused |-> 0]
-TInit == /\ l = 1 /\ cur = NoCase /\ ms = [none |-> TRUE] /\ fin = [res |-> "", sound |-> FALSE]
+TInit == /\ l = 1 /\ cur = NoCase /\ ms = [none |-> TRUE] /\ fin = [res |-> "", sound |-> FALSE, want |-> NoProof]
          /\ exp = [has |-> FALSE, p |-> NoProof] /\ stat = Stat0
 TNext == TCase \/ TStep \/ TOther \/ TDone
 TSpec == TInit /\ [][TNext]_tvars
